@@ -94,6 +94,10 @@ func c11Moment(w *W, st ref.Stamp, class string) {
 	add("Time.GetZhi|GetTimeZhi", lt.GetZhi(), l.GetTimeZhi())
 	add("Time.GetGanIndex|GetTimeGanIndex", lt.GetGanIndex(), l.GetTimeGanIndex())
 	add("Time.GetZhiIndex|GetTimeZhiIndex", lt.GetZhiIndex(), l.GetTimeZhiIndex())
+	// the exported slot helpers asked with the clock text of the same moment, with and without seconds
+	add("LunarUtil.ConvertTime(HH:MM)|GetTimeZhi", LunarUtil.ConvertTime(fmt.Sprintf("%02d:%02d", st.H, st.Mi)), l.GetTimeZhi())
+	add("LunarUtil.ConvertTime(HH:MM:SS)|GetTimeZhi", LunarUtil.ConvertTime(l.GetSolar().ToYmdHms()[11:]), l.GetTimeZhi())
+	add("LunarUtil.GetTimeZhiIndex(HH:MM:SS)|GetTimeZhiIndex", LunarUtil.GetTimeZhiIndex(l.GetSolar().ToYmdHms()[11:]), l.GetTimeZhiIndex())
 	add("Time.GetShengXiao|GetTimeShengXiao", lt.GetShengXiao(), l.GetTimeShengXiao())
 	add("Time.GetNineStar|GetTimeNineStar", lt.GetNineStar().GetIndex(), l.GetTimeNineStar().GetIndex())
 	add("Time.GetTianShen|GetTimeTianShen", lt.GetTianShen(), l.GetTimeTianShen())
@@ -268,7 +272,8 @@ func c11Moment(w *W, st ref.Stamp, class string) {
 			return strings.Join(filterParts(digest1(e), []string{"GetLunar="}), ";")
 		}
 		f1, f2 := fresh(1), fresh(2)
-		lone := solarOf(st).GetLunar()
+		sone := solarOf(st)
+		lone := sone.GetLunar()
 		one := lone.GetEightChar()
 		seq := []int{2, 1, 2, 1}
 		if st.S%2 == 0 {
@@ -289,6 +294,11 @@ func c11Moment(w *W, st ref.Stamp, class string) {
 			b := fmt.Sprint([4]string{one.GetYear(), one.GetMonth(), one.GetDay(), one.GetTime()}, [4]string{one.GetYearWuXing(), one.GetMonthWuXing(), one.GetDayWuXing(), one.GetTimeWuXing()},
 				[4]string{one.GetYearNaYin(), one.GetMonthNaYin(), one.GetDayNaYin(), one.GetTimeNaYin()}, [4]string{one.GetYearShiShenGan(), one.GetMonthShiShenGan(), one.GetDayShiShenGan(), one.GetTimeShiShenGan()},
 				listStrings(one.GetDayShiShenZhi()), listStrings(one.GetTimeShiShenZhi()))
+			// converting the same Solar again gives a new Lunar with its own chart in the default convention (sect 2),
+			// whatever was done to the chart of the first
+			if again := strings.Join(filterParts(digest1(sone.GetLunar().GetEightChar()), []string{"GetLunar="}), ";"); again != f2 {
+				w.Violatef("route", fmt.Sprintf("Solar.GetLunar() again after SetSect(%d)@%s", sect, key), "after SetSect(%d) on the chart of solar.GetLunar() at %s, converting the same Solar again hands out a chart that differs from a fresh default one: %s", sect, key, diffDigests(f2, again))
+			}
 			if a != b {
 				w.Violatef("route", fmt.Sprintf("GetBaZi*|EightChar after SetSect(%d)@%s", sect, key), "after SetSect(%d) on the chart of the Lunar at %s its GetBaZi* aliases give %s, the chart %s", sect, key, a, b)
 			}
